@@ -283,7 +283,13 @@ pub fn gen_text(rng: &mut Rng, mode: &str) -> Vec<u32> {
             for _ in 0..rng.range(0, 1) { let c = *rng.pick(&[L, R]); t.push(pick_char(rng, c)); }
             let start_rtl = rng.chance(1, 2);
             let depth = rng.range(118, 126);
-            for i in 0..depth { t.push(if (i % 2 == 0) == start_rtl { RLE_C } else { LRE_C }); }
+            // the climb: embeddings, isolates, or a mix (an isolate entry on top of the stack behaves differently under X7)
+            let iso_share = *rng.pick(&[0usize, 0, 1, 2, 4]);
+            for i in 0..depth {
+                let rtl = (i % 2 == 0) == start_rtl;
+                let iso = iso_share > 0 && rng.below(4) < iso_share;
+                t.push(match (rtl, iso) { (true, false) => RLE_C, (false, false) => LRE_C, (true, true) => RLI_C, (false, true) => LRI_C });
+            }
             let toks = [LRI_C, RLI_C, RLI_C, FSI_C, LRE_C, RLE_C, RLE_C, LRO_C, RLO_C, PDF_C, PDF_C, PDI_C, PDI_C, 0x61, 0x5D0, 0x31];
             for _ in 0..rng.range(3, 12) { t.push(*rng.pick(&toks)); }
             t.push(*rng.pick(&[0x62u32, 0x5D1]));
@@ -553,6 +559,10 @@ pub fn pick_dir(rng: &mut Rng) -> Dir {
 }
 
 /// scalars -> UTF-16 units, optionally damaged with unpaired surrogates
+/// an unpaired-surrogate value; the ends of the two ranges one time in four
+fn hi_sur(rng: &mut Rng) -> u32 { if rng.chance(1, 4) { *rng.pick(&[0xD800u32, 0xDBFF]) } else { 0xD800 + rng.below(0x400) as u32 } }
+fn lo_sur(rng: &mut Rng) -> u32 { if rng.chance(1, 4) { *rng.pick(&[0xDC00u32, 0xDFFF]) } else { 0xDC00 + rng.below(0x400) as u32 } }
+
 pub fn to_units(rng: &mut Rng, scalars: &[u32], damage: bool) -> Vec<u32> {
     let mut u = vec![];
     for &c in scalars {
@@ -564,30 +574,42 @@ pub fn to_units(rng: &mut Rng, scalars: &[u32], damage: bool) -> Vec<u32> {
             u.push(c);
         }
         if damage && rng.chance(1, 6) {
-            match rng.below(7) {
+            match rng.below(9) {
                 4 => {
-                    u.push(0xDC00 + rng.below(0x400) as u32);
-                    u.push(0xDC00 + rng.below(0x400) as u32);
+                    u.push(lo_sur(rng));
+                    u.push(lo_sur(rng));
                 }
                 5 => {
-                    u.push(0xD800 + rng.below(0x400) as u32);
-                    u.push(0xDC00 + rng.below(0x400) as u32);
-                    u.push(0xDC00 + rng.below(0x400) as u32);
+                    u.push(hi_sur(rng));
+                    u.push(lo_sur(rng));
+                    u.push(lo_sur(rng));
                 }
                 6 => {
-                    u.push(0xD800 + rng.below(0x400) as u32);
+                    u.push(hi_sur(rng));
                     u.push(*rng.pick(&[0x5D0u32, 0x627, 0x31, 0x661, 0x202B, 0x2067, 0x202C, 0x2069, 0xA]));
                 }
-                0 => u.push(0xD800 + rng.below(0x400) as u32),
-                1 => u.push(0xDC00 + rng.below(0x400) as u32),
+                7 => {
+                    // two (three) unpaired HIGH surrogates in a row, nothing low after them
+                    u.push(hi_sur(rng));
+                    u.push(hi_sur(rng));
+                    if rng.chance(1, 3) { u.push(hi_sur(rng)); }
+                }
+                8 => {
+                    u.push(lo_sur(rng));
+                    u.push(hi_sur(rng));
+                    u.push(hi_sur(rng));
+                    u.push(*rng.pick(&[0x5D0u32, 0x61, 0x31, 0x2069, 0x202C]));
+                }
+                0 => u.push(hi_sur(rng)),
+                1 => u.push(lo_sur(rng)),
                 2 => {
-                    u.push(0xDC00 + rng.below(0x400) as u32);
-                    u.push(0xD800 + rng.below(0x400) as u32);
+                    u.push(lo_sur(rng));
+                    u.push(hi_sur(rng));
                 }
                 _ => {
-                    u.push(0xD800 + rng.below(0x400) as u32);
-                    u.push(0xD800 + rng.below(0x400) as u32);
-                    u.push(0xDC00 + rng.below(0x400) as u32);
+                    u.push(hi_sur(rng));
+                    u.push(hi_sur(rng));
+                    u.push(lo_sur(rng));
                 }
             }
         }
@@ -989,7 +1011,7 @@ pub fn gen_case(prop: &str, rng: &mut Rng, n: usize, thorough: bool) -> (String,
             (mode.into(), Input::Meta9 { units, dir, ds, line })
         }
         "C10" => {
-            let mode = pick_mode(rng, &[("para", 6), ("iso", 2), ("sep", 2), ("brk", 1), ("words", 2), ("manyparas", 1)]);
+            let mode = if rng.chance(1, 7) { pick_mode(rng, &MODES_ALL) } else { pick_mode(rng, &[("para", 6), ("iso", 2), ("sep", 2), ("brk", 1), ("words", 2), ("manyparas", 1), ("deep-paras", 3), ("deepiso", 1)]) };
             let mut t = gen_text(rng, mode);
             if rng.chance(1, 2) {
                 // make sure there are several paragraphs with unmatched openers before the separator
@@ -999,7 +1021,8 @@ pub fn gen_case(prop: &str, rng: &mut Rng, n: usize, thorough: bool) -> (String,
                 t.insert(k2, *rng.pick(&[LRE_C, RLE_C, RLO_C, LRI_C, RLI_C, FSI_C, 0x28, 0x5B]));
             }
             let enc = if rng.chance(2, 3) { Enc::U8 } else { Enc::U16 };
-            let text = if enc == Enc::U16 { to_units(rng, &t, false) } else { t };
+            // UTF-16: ill-formed too (each unpaired surrogate is one character for both analysis types)
+            let text = if enc == Enc::U16 { let dmg = rng.chance(1, 3); to_units(rng, &t, dmg) } else { t };
             (mode.into(), Input::Meta10 { enc, text, dir: pick_dir(rng) })
         }
         "C11" => {
@@ -1104,7 +1127,10 @@ pub fn gen_case(prop: &str, rng: &mut Rng, n: usize, thorough: bool) -> (String,
                 // which they pair; retained BN units next to them are then rewritten by the weak stage, which the
                 // N0 sweeps over "NSM that follow a bracket" must still step over (finding D9)
                 let wk = [ES, CS, ET, NSM, ON, ON];
-                let (oc, cc) = (*rng.pick(&wk), *rng.pick(&wk));
+                // one time in four BOTH brackets are NSM and stand directly after a neutral: W1 makes them ON, and they
+                // are then the only brackets of the paragraph (nothing but the weak stage says that N0 has work to do)
+                let both_nsm = rng.chance(1, 4);
+                let (oc, cc) = if both_nsm { (NSM, NSM) } else { (*rng.pick(&wk), *rng.pick(&wk)) };
                 let (o, c) = if rng.chance(1, 2) { (0x28u32, 0x3E8u32) } else { (0x3008, 0x1F600) };
                 let (sr, sl, bn, nsm, en, on, ws) = (0x5D0u32, 0x61u32, 0xADu32, 0x300u32, 0x31u32, 0x21u32, 0x20u32);
                 let spec = DsSpec { entries: vec![
@@ -1117,9 +1143,11 @@ pub fn gen_case(prop: &str, rng: &mut Rng, n: usize, thorough: bool) -> (String,
                 for _ in 0..rng.range(0, 3) { t.push(*rng.pick(&filler)); }
                 for _ in 0..rng.range(1, 3) {
                     if rng.chance(1, 2) { t.push(*rng.pick(&strong)); }
+                    if both_nsm { t.push(on); }
                     t.push(o);
                     for _ in 0..rng.range(0, 2) { t.push(*rng.pick(&gap)); }
                     for _ in 0..rng.range(0, 2) { t.push(*rng.pick(&filler)); }
+                    if both_nsm { t.push(on); }
                     t.push(c);
                     for _ in 0..rng.range(0, 3) { t.push(*rng.pick(&gap)); }
                     if rng.chance(2, 3) { t.push(nsm); }
@@ -1213,8 +1241,15 @@ pub fn gen_case(prop: &str, rng: &mut Rng, n: usize, thorough: bool) -> (String,
                     let mut pre = vec![];
                     if rng.chance(1, 2) {
                         force_dir = Some(Dir::L0);
-                        for _ in 0..(if at124 { 62 } else { 61 }) { pre.push(*rng.pick(&[LRE_C, LRE_C, LRO_C])); }
+                        let all_iso = rng.chance(1, 3);
+                        for _ in 0..(if at124 { 62 } else { 61 }) { pre.push(if all_iso { LRI_C } else { *rng.pick(&[LRE_C, LRE_C, LRO_C]) }); }
                         if !at124 { pre.push(RLE_C); }
+                        if at124 {
+                            // at level 124 an LRE / LRO / LRI overflows; opened and closed again it must leave no trace
+                            for _ in 0..rng.range(0, 2) {
+                                if rng.chance(2, 3) { pre.push(*rng.pick(&[LRE_C, LRO_C])); pre.push(PDF_C); } else { pre.push(LRI_C); pre.push(PDI_C); }
+                            }
+                        }
                     } else {
                         force_dir = Some(Dir::L1);
                         for _ in 0..61 { pre.push(*rng.pick(&[RLE_C, RLE_C, RLO_C])); }
@@ -1396,7 +1431,9 @@ pub fn gen_case(prop: &str, rng: &mut Rng, n: usize, thorough: bool) -> (String,
         }
         "C17" => {
             if rng.chance(1, 2) {
-                let (m, mut i) = bidi_case(rng, &[("short", 4), ("words", 3), ("sep", 2), ("para", 2), ("empty", 1)], false);
+                // with caller-supplied data sources too: the summary queries may rest on the stored levels only, not on
+                // what real Unicode says about the characters of the text
+                let (m, mut i) = bidi_case(rng, &[("short", 4), ("words", 3), ("sep", 2), ("para", 2), ("empty", 1)], true);
                 if let Input::Bidi { ref mut dir, .. } = i {
                     if rng.chance(1, 2) {
                         *dir = Dir::L1;
